@@ -253,6 +253,10 @@ pub fn run(tier: Tier) -> Report {
                             rep.violation(Violation { key, ord: ord * 2000 + 1999, what, replay: json!({"kind": k, "limit": n, "head": hex(h), "head_text": show(h), "nfields": f, "p": h.len(), "tail": hex(t)}) });
                         }
                     }
+                    if ord % 397 == 0 && !rep.violations.keys().any(|x| x.contains(&format!(":{}:", k))) {
+                        crate::engine::validate_case(&mut rep, replay, json!({"kind": k, "limit": n, "head": hex(h), "nfields": f, "p": h.len() / 2, "tail": ""}));
+                        crate::engine::validate_case(&mut rep, replay, json!({"kind": k, "limit": n, "head": hex(h), "nfields": f, "p": h.len(), "tail": hex(b"X")}));
+                    }
                     rep.states += 1;
                     rep.distinct_hash(&(h, n, k));
                     if f > n {
